@@ -1,3 +1,3 @@
 SPECIFICATION Spec
-CONSTANTS MaxJobs = 2  MaxFail = 0  GenDepth = 0  WeakDeps = FALSE  WeakOnce = FALSE  WeakBound = TRUE
+CONSTANTS MaxJobs = 2  MaxFail = 0  GenDepth = 0  WeakDeps = FALSE  WeakOnce = FALSE  WeakBound = TRUE  Dags = {1, 2, 3, 4, 5, 6}
 INVARIANT Bounded
